@@ -13,7 +13,7 @@ from torch import Tensor, nn
 from torch.fx import Interpreter
 from torch.fx.graph import Graph
 from torch.fx.graph_module import GraphModule
-from torch.fx.node import Node, Target
+from torch.fx.node import Node, Target, map_arg
 
 from .utils import apply_transform
 
@@ -218,22 +218,13 @@ class ScaleTrackingBackend:
 
 
 def _prune(graph: Graph, node: Node, replacement_arg: Optional[Node] = None) -> None:
+    def replace(n: Node) -> Optional[Node]:
+        return replacement_arg if n == node else n
+
     for user in list(node.users):
-        # output node's args are a tuple of tuples, so need special handling
-        if user.name == "output":
-            user.args = tuple(
-                (
-                    (tuple(replacement_arg if o == node else o for o in out))
-                    if isinstance(out, Iterable)
-                    else (replacement_arg if out == node else out)
-                )
-                for out in user.args
-            )
-        else:
-            user.args = tuple(replacement_arg if a == node else a for a in user.args)
-        user.kwargs = {
-            k: replacement_arg if v == node else v for k, v in user.kwargs.items()
-        }
+        # map_arg handles args nested in lists/tuples/dicts (e.g. for `output`)
+        user.args = map_arg(user.args, replace)  # type: ignore[assignment]
+        user.kwargs = map_arg(user.kwargs, replace)  # type: ignore[assignment]
     graph.erase_node(node)
 
 
